@@ -281,7 +281,7 @@ P("C05", module="AJ.Props.C05All", extra=[("AJ.Props.C05", ["C05"]), ("AJ.Props.
   "documents keep their own allocator in the fault histories (no copy-assignment/swap)",
   suites=lambda tier: [S.FaultSuite(cfg=G["default"]), S.FaultSuite(cfg=G["tiny1"], nh=120 if tier == "quick" else 3000), S.FaultSuite(cfg=G["tiny2"], nh=80 if tier == "quick" else 3000),
                        S.DeserFaultSuite(cfg=G["default"]), S.DeserFaultSuite(cfg=G["tiny2"], n=300 if tier == "quick" else 20000),
-                       S.JsonDocSuite(cfg=DEF, n=1500 if tier == "quick" else 150000), S.MpDocSuite(cfg=DEF, n=1500 if tier == "quick" else 150000)] +
+                       S.JsonDocSuite(cfg=DEF, n=1500 if tier == "quick" else 150000), S.MpDocSuite(cfg=DEF, n=1500 if tier == "quick" else 150000), S.DeserShareSuite(cfg=G["tiny2"])] +
   ([S.FaultSuite(cfg=G[g], nh=2000) for g in ("id1", "tiny2", "id1c10")] if tier == "thorough" else []),
   partial=["failure inside deserializeMsgPack as a theorem"])
 
@@ -332,7 +332,7 @@ P("C14", module="AJ.Props.C14All", extra=[("AJ.Props.C04", ["C14"]), ("AJ.Props.
   "with five string source kinds for values AND keys (std::string, string_view and JsonString slices of longer buffers, char* in exactly-sized blocks, linked JsonString) and must give "
   "identical observations incl. conversions and termination of every string handed out.",
   level_note="numeric conversion of strings (as<T>() on a string) is compared across kinds on the implementation; the theorems are about documents, not about the adapters' overload resolution",
-  suites=lambda tier: [S.StringKindSuite(cfg=DEF), S.HistSuite(cfg=G["default"], nh=30 if tier == "quick" else 1500)])
+  suites=lambda tier: [S.StringKindSuite(cfg=DEF), S.HistSuite(cfg=G["default"], nh=30 if tier == "quick" else 1500), S.DeserShareSuite(cfg=G["tiny2"])])
 
 for pid in list(PROPS):
     if not PROPS[pid]["theorems"]:
